@@ -66,6 +66,17 @@ CHECKS["C17"] = dict(
    note="package loading and pattern matching (go/packages) are trusted inputs; partially non-matching pattern lists are left out (their status is decided inside go/packages). Model reflects /repo after the fix: commit that stops writing '..v' for unloadable packages.",
    ref="DESIGN.md §5 C17")
 
+CHECKS["C01"] = dict(
+   technique="Coq proofs (a reference GooseLang interpreter with fuel-independence; a model of goose's statement/expression translation for the core fragment with a Go semantics and a preservation theorem over all programs, inputs and environments) + per-run obligations (goose's regenerated output for the upstream semantics suite evaluates to #true; frozen translation functions and operator tables) + correspondence (model = goose output syntactically; Go model = Go toolchain) + differential execution of generated packages and of a construct catalogue",
+   text="Theorems: results under the reference semantics do not depend on fuel; for every function body of the core fragment (uint64/bool, wrap-around operators, := and var locals with shadowing, assignment, op-assignment, ++/--, if/else, early returns) that the translator model accepts, every argument vector and every returning Go run, the emitted body evaluates to Go's value in Go's store (statement lists under both usages, expressions, unit functions). Per run: the translator model's output is compared syntactically (kernel-checked equality) with the term Coq parses from the real goose's output, function by function, and the Go model with the Go toolchain, call by call; goose's output for internal/examples/semantics is regenerated and each upstream test evaluates to #true; generated packages using the rest of the subset (uint32/byte, loops with break/continue, nested blocks, slices, maps, structs by value and pointer, methods, constants, multiple results, strings) are run natively and through goose + the interpreter; a catalogue of 121 constructs at the edge of the subset is run the same way.",
+   note="partial: the theorem covers the core fragment at the level of function bodies (the curried function header is covered by the differential run only); loops, slices, maps, structs, strings, closures and the encoding primitives are covered by differential execution (tested), not by a theorem. The reference semantics stands for Perennial's GooseLang (not installable here) and is validated by the upstream semantics suite each run. Known findings (upstream failing_ tests, evaluation order, narrow ++, constant folding, per-iteration loop variables, &x of := variables, method values, nil map reads, package look-alikes) are listed in known_findings.json; 3 genuine defects repaired by fix: commits.",
+   ref="DESIGN.md §5 C01")
+CHECKS["C02"] = dict(
+   technique="Coq proofs (rejected-or-faithful for the translator model at every position; the guards of the fragment) + per-run obligations (inventory of all guard sites regenerated from the sources; recognisers and error reporters frozen) + construct catalogue + injection of out-of-subset statements into generated programs + accept/reject correspondence of goose with the model",
+   text="Theorems: for every statement list of the MiniGo fragment extended with out-of-subset constructs, under every usage and environment, the translator model either reports an error or emits a term that computes what Go computes; assignment to :=-bound variables, op-assignments without operator, returns outside tail position and early returns with an else branch are rejected. Per run: the list of all 100 guard sites (function, category, message) regenerated from goose.go/types.go is compared with the frozen list; 121 catalogue items (op-assign forms, 3-index and full slices, if/for initialisers, named results, switch, goto, labels, defer, range forms, arrays, signed and 16-bit integers, floats, channels, select, type switches and assertions, variadics, method values, closures, embedded fields, struct comparison, constants with iota/negative/untyped-big values, builtin and package look-alikes, ...) are each rejected or executed against Go; generated programs get out-of-subset statements injected at random positions; goose's accept/reject decisions on MiniGo programs are compared with the model's.",
+   note="partial: faithful-or-rejected is proved for the model's fragment and tested (differentially) for the catalogue and the injected statements. Known findings: package look-alikes (filesys, machine, sync), and the C01 findings that are accepted-but-different. 9 genuine defects repaired by fix: commits (builtin look-alikes, string ordering, field store on values, variadics, comma-ok assertions, multi-name specs, ...).",
+   ref="DESIGN.md §5 C02")
+
 
 def main():
     checks = []
